@@ -195,6 +195,7 @@ def run_case(case, res):
                     got = list(sobj.iterator(im, add_self=add_self))
                 goti = [idx_of.get(id(n), "?") for n in got]
                 res.count("iter_sequences")
+                res.observe("iterator_sequences", [method, goti])
                 if goti != exp:
                     fail(f"iterator({method}, add_self={add_self}) from {start}: got {goti}, expected {exp}")
                 if method == "pre":
@@ -252,6 +253,7 @@ def run_case(case, res):
                 else:
                     ret = sobj.visit(cb, add_self=add_self, method=im)
                 res.count("visit_traces")
+                res.observe("callback_traces", [method, trace, repr(ret)])
                 res.count(f"cell:{method}:{form}")
                 if trace != exp:
                     fail(f"visit({method}, add_self={add_self}) from {start} signal {form}@{sig_at}: trace {trace}, expected {exp}")
